@@ -360,7 +360,7 @@ def build_schedules(ctx, quick):
                 st = sock_steps(states)
                 sock_runs.append({"id": key, "qcap": 2, "steps": st})
                 if key.startswith("att_asis_"):      # interleaving-dependent on real code: three attempts
-                    for k in range(2, 13 if "Panic" in key else 4):
+                    for k in range(2, 13 if "Panic" in key else 41 if "StuckWaiter" in key else 4):
                         sock_runs.append({"id": "%s#%d" % (key, k), "qcap": 2, "steps": st, "rep": k})
     for i, beh in enumerate(read_sim(os.path.join(simp, "s"), nsim)):
         sock_runs.append({"id": "sim%d-%d" % (ctx.seed, i), "qcap": 2, "steps": sock_steps(beh)})
@@ -595,10 +595,13 @@ def replay(ctx, path):
             if not rd:
                 raise Undecided("replay file has no run definition")
             rows = []
-            for k in range(30):      # interleaving-dependent on real code: several attempts
-                r, c = run_sock_harness(ctx, binp, [dict(rd, id="%s@%d" % (rd["id"], k))], out)
-                rows += r
-                if c or any(x["ev"] == "Obs" and x.get("inflight") and x.get("quit") for x in r):
+            for b in range(6):       # interleaving-dependent on real code: up to 600 attempts
+                batch = [dict(rd, id="%s@%d" % (rd["id"], b * 100 + k)) for k in range(100)]
+                r, c = run_sock_harness(ctx, binp, batch, out)
+                hit = c or any(x["ev"] == "Obs" and x.get("final") and x.get("inflight") and x.get("quit") for x in r)
+                if hit or b == 5:
+                    rows += r[-3000:]
+                if hit:
                     break
         elif fam == "local":
             if not rd:
